@@ -53,17 +53,18 @@ Proof. unfold amem. rewrite alookup_inj. destruct (alookup k m); reflexivity. Qe
 End Inj.
 
 (* ---------------------------------------------------------------- types *)
-(* types all of whose type names satisfy okT and labels okL *)
-Fixpoint okt (okT okL : string -> Prop) (t : sty) : Prop :=
+(* types all of whose type names satisfy okT, labels okL, modes (of every node, shifts included) okM,
+   and — if NE — whose choices have at least one branch *)
+Fixpoint okt (okT okL : string -> Prop) (okM : mode -> Prop) (NE : Prop) (t : sty) : Prop :=
   match t with
-  | TName x _ => okT x
-  | TUnit _ => True
-  | TTensor a b _ | TLolli a b _ => okt okT okL a /\ okt okT okL b
-  | TPlus bs _ | TWith bs _ => okbrs okT okL bs
-  | TUp _ _ a | TDown _ _ a => okt okT okL a
+  | TName x m => okT x /\ okM m
+  | TUnit m => okM m
+  | TTensor a b m | TLolli a b m => okM m /\ okt okT okL okM NE a /\ okt okT okL okM NE b
+  | TPlus bs m | TWith bs m => okM m /\ (NE -> brs_len bs <> 0%nat) /\ okbrs okT okL okM NE bs
+  | TUp f t a | TDown f t a => okM f /\ okM t /\ okt okT okL okM NE a
   end
-with okbrs (okT okL : string -> Prop) (b : brs) : Prop :=
-  match b with BNil => True | BCons l a rest => okL l /\ okt okT okL a /\ okbrs okT okL rest end.
+with okbrs (okT okL : string -> Prop) (okM : mode -> Prop) (NE : Prop) (b : brs) : Prop :=
+  match b with BNil => True | BCons l a rest => okL l /\ okt okT okL okM NE a /\ okbrs okT okL okM NE rest end.
 
 Section Types.
 Variable r : renaming.
@@ -229,8 +230,10 @@ Qed.
 
 (* ---------------------------------------------------------------- EqualType *)
 Variable okT okL : string -> Prop.
-Notation okt := (okt okT okL).
-Notation okbrs := (okbrs okT okL).
+Variable okM : mode -> Prop.
+Variable NE : Prop.
+Notation okt := (okt okT okL okM NE).
+Notation okbrs := (okbrs okT okL okM NE).
 
 Definition okD (D : tenv) : Prop := forall d, In d D -> okt (td_body d).
 
@@ -333,13 +336,12 @@ Proof.
       try (apply eq_sim_ret; auto; fail);
       try (match goal with |- eq_sim _ (eq_ty _ _ _ ?a ?b _) _ => apply (Hexp a b); cbn [okt]; auto end; fail).
   - destruct s, t; cbn [is_name orb] in En; try discriminate En; cbn [rn_sty]; try (apply eq_sim_ret; auto; fail);
-      cbn [okt] in Hs, Ht0;
+      cbn [RenameTypes.okt] in Hs, Ht0; decompose [and] Hs; decompose [and] Ht0; clear Hs Ht0;
       rewrite ?brs_len_rn;
       repeat match goal with
       | |- eq_sim _ (if ?c then _ else _) _ => destruct c; try (apply eq_sim_ret; auto; fail)
       end;
-      try (destruct Hs, Ht0;
-           match goal with
+      try (match goal with
            | |- eq_sim _ (obind _ ?F) (obind _ ?G) =>
              match F with context [eq_ty ?k1 ?D1 ?n1 ?a1 ?b1] =>
              match G with context [eq_ty ?k2 ?D2 ?n2 ?a2 ?b2] =>
@@ -375,19 +377,47 @@ Qed.
 Lemma okt_unfold D t u : okD D -> okt t -> unfold D t = Ok (Some u) -> okt u.
 Proof. intros HD Hok H. eapply okt_unfold_f; eauto. Qed.
 
-Lemma okt_assign D :
-  (forall t cur, okt t -> okt (assign D cur t)) /\ (forall b cur, okbrs b -> okbrs (assign_brs D cur b)).
+End Types.
+
+(* raw types (modes not yet inferred / checked): okM := True; checked types: every mode proper *)
+Definition anym : mode -> Prop := fun _ => True.
+Definition pm : mode -> Prop := fun m => proper m = true.
+
+Section Raise.
+Variable okT okL : string -> Prop.
+Variable NE : Prop.
+Notation okr := (okt okT okL anym NE).
+Notation okrb := (okbrs okT okL anym NE).
+Notation okp := (okt okT okL pm NE).
+Notation okpb := (okbrs okT okL pm NE).
+
+Lemma okr_assign D :
+  (forall t cur, okr t -> okr (assign D cur t)) /\ (forall b cur, okrb b -> okrb (assign_brs D cur b)).
 Proof.
-  apply sty_brs_ind; intros; cbn [assign assign_brs okt okbrs] in *; auto; try tauto.
-  - destruct (negb (is_unset m)); [exact H|]. destruct (tlookup D x); exact H.
+  assert (Hlen : forall b cur, brs_len (assign_brs D cur b) = brs_len b) by (induction b; intros; cbn; auto).
+  apply sty_brs_ind; intros; cbn [assign assign_brs okt okbrs] in *; unfold anym in *; auto;
+    repeat match goal with H : _ /\ _ |- _ => destruct H end; repeat split; auto; try (rewrite Hlen; auto).
+  - destruct (negb (is_unset m)); cbn [okt]; [tauto|]. destruct (tlookup D x); cbn [okt]; tauto.
   - destruct (is_unset m); exact I.
-  - destruct H1; split; auto.
-  - destruct H1; split; auto.
-  - destruct H1 as (? & ? & ?); repeat split; auto.
 Qed.
-Lemma okt_add_missing D t t' : okt t -> add_missing D t = Ok t' -> okt t'.
+Lemma okr_add_missing D t t' : okr t -> add_missing D t = Ok t' -> okr t'.
 Proof.
   unfold add_missing. intros Hok H. destruct (infer _ D t []) as [[m u]| |]; cbn in H; try discriminate.
-  inversion H; subst. apply (proj1 (okt_assign D)); auto.
+  inversion H; subst. apply (proj1 (okr_assign D)); auto.
 Qed.
-End Types.
+
+Lemma okp_okr : (forall t, okp t -> okr t) /\ (forall b, okpb b -> okrb b).
+Proof. apply sty_brs_ind; intros; cbn [okt okbrs] in *; unfold anym; tauto. Qed.
+
+(* CheckTypeWellFormedness checks that every mode is one of the four proper ones *)
+Lemma okr_check_modes D :
+  (forall t cur, okr t -> check_modes D cur t = true -> okp t) /\
+  (forall b cur, okrb b -> check_modes_brs D cur b = true -> okpb b).
+Proof.
+  apply sty_brs_ind; intros; cbn [check_modes check_modes_brs okt okbrs] in *; unfold pm, mode_ok in *;
+    rewrite ?andb_true_iff in *;
+    repeat match goal with H : _ /\ _ |- _ => destruct H end; repeat split; eauto.
+Qed.
+Lemma okr_check_wf D t : okr t -> check_wf D t = true -> okp t.
+Proof. unfold check_wf. intros H E. apply andb_prop in E. destruct E as [_ E]. eapply (proj1 (okr_check_modes D)); eauto. Qed.
+End Raise.
